@@ -275,6 +275,8 @@ def run_harness(pid, cfg, bins, tier, seed, only_case=None, sub=None):
         name = h.get("name", str(i))
         if sub is not None and name != sub:
             continue
+        if tier not in h.get("tiers", ["quick", "thorough"]):
+            continue
         outdir = os.path.join(BUILD, "out", pid + "-" + RUNTAG, name)
         shutil.rmtree(outdir, ignore_errors=True)
         os.makedirs(outdir, exist_ok=True)
